@@ -98,12 +98,24 @@ class WrappedCallSite {
     return this.callSite.getScriptHash()
   }
 
+  // start of the enclosing function: a position in the rewritten file like the call site's own
+  getEnclosingPosition () {
+    if (this.enclosing === undefined) {
+      const line = this.callSite.getEnclosingLineNumber()
+      const column = this.callSite.getEnclosingColumnNumber()
+      this.enclosing = typeof line === 'number' && typeof column === 'number'
+        ? getSourcePathAndLineFromSourceMaps(this.callSite.getFileName(), line, column)
+        : { line, column }
+    }
+    return this.enclosing
+  }
+
   getEnclosingLineNumber () {
-    return this.callSite.getEnclosingLineNumber()
+    return this.getEnclosingPosition().line
   }
 
   getEnclosingColumnNumber () {
-    return this.callSite.getEnclosingColumnNumber()
+    return this.getEnclosingPosition().column
   }
 
   getPosition () {
